@@ -174,6 +174,8 @@ def Accepted (st : State) (op : WriteOp) : Prop :=
   ((st.track op.track).firstRA = true ∨ op.ra = true) ∧
   ((st.tcfg op.track).codec = .h264 → (op.ra = true ∨ op.pic = true))
 
+instance (st : State) (op : WriteOp) : Decidable (Accepted st op) := by unfold Accepted; exact inferInstance
+
 theorem cut_iff_on {st st2 : State} {L : Nat} (hg : GI st L) (hv : st.cfg.variant ≠ .mpegts)
     (hL : leadingIdx st.cfg.tracks = L) (hc : st2.cfg = st.cfg) (hs : st2.streams = st.streams)
     (hn : (st2.track L).next = (st.track L).next) (ra ch : Bool) (smp old : Sample)
